@@ -295,6 +295,8 @@ class Expect:
         self.mask = mask        # np.bool array: which bytes are asserted
         self.kv = kv or {}      # exact key=value expectations
         self.what = what
+        self.tag = None         # site tag used in the violation key instead of the API name
+        self.alt_kv = {}        # {key: (value, tag)}: value the *known-deviating* behaviour would give
 
     def check(self, ev, res, rank):
         out = []
@@ -308,6 +310,9 @@ class Expect:
         for k, want in self.kv.items():
             got = ev.kv.get(k)
             if str(got) != str(want):
+                if k in self.alt_kv and str(got) == str(self.alt_kv[k][0]):
+                    out.append(Violation(self.alt_kv[k][1], "%s at line %d rank %d: %s=%s, property says %s (%s)" % (api, ev.line, rank, k, got, want, self.what), res))
+                    continue
                 out.append(Violation("kv|%s|%s" % (api, k), "%s at line %d rank %d: %s=%s, model says %s (%s)" % (api, ev.line, rank, k, got, want, self.what), res))
         if self.buf is not None:
             got = ev.hexb()
@@ -318,7 +323,7 @@ class Expect:
                 bad = (g != self.buf) & self.mask
                 if bad.any():
                     i = int(np.argmax(bad))
-                    out.append(Violation("data|%s" % api, "%s at line %d rank %d: buffer byte %d is %02x, model says %02x (%d bytes differ; %s)" % (
+                    out.append(Violation("data|%s" % (self.tag or api), "%s at line %d rank %d: buffer byte %d is %02x, model says %02x (%d bytes differ; %s)" % (
                         api, ev.line, rank, i, g[i], self.buf[i], int(bad.sum()), self.what), res))
         return out
 
